@@ -261,4 +261,346 @@ theorem splitLoop_some (data pat : Bits) (e : Nat) (al : Bool) (n : Nat) (hne : 
       have : n - c = 0 := by omega
       simp [this]
 
+
+theorem split_main (data pat : Bits) (start stop : Option Int) (count : Option Int)
+    (ba : Option Bool) (optBA : Bool) (hc : ∀ c, count = some c → 0 ≤ c) :
+    split data pat start stop count ba optBA =
+      specGuard true data.length pat start stop fun s e =>
+        specSplit data pat s e (specAligned ba optBA) (countNat count) := by
+  unfold split specGuard
+  by_cases hp : pat.length = 0
+  · have : pat = [] := List.length_eq_zero_iff.1 hp
+    subst this; simp
+  · have hne : pat ≠ [] := fun h => hp (by simp [h])
+    have hie : pat.isEmpty = false := by cases pat <;> simp_all
+    rw [if_neg hp]
+    simp only [hie, Bool.and_false, Bool.false_eq_true, if_false]
+    have hv := validate_slice_spec data.length start stop
+    cases hw : specWindow data.length start stop with
+    | none => rw [hw] at hv; rw [hv]
+    | some w =>
+      obtain ⟨s, e⟩ := w
+      rw [hw] at hv
+      have hb := validate_slice_bounds _ _ _ s e hv
+      rw [hv]
+      simp only []
+      rw [defaultBA_eq]
+      generalize specAligned ba optBA = al
+      have hfind := findMsb0_head data pat s e al hne hb.2
+      have key : ∀ cnt : Option Nat, (match cnt with | none => True | some n => 0 < n) →
+          (match findMsb0 data pat s e al with
+            | none => [slice data s e]
+            | some f => slice data s f :: splitLoop data pat e al cnt (data.length + 1) f f 1)
+            = specSplit data pat s e al cnt := by
+        intro cnt hcnt
+        rw [hfind]
+        unfold specSplit
+        cases hocc : occ data pat s e al with
+        | nil =>
+          cases cnt with
+          | none => simp [selectNonOverlap, piecesAt]
+          | some n =>
+            have hn : 0 < n := hcnt
+            have : n = (n - 1) + 1 := by omega
+            simp only [List.head?_nil, selectNonOverlap, piecesAt]
+            rw [this, List.take_succ_cons]
+            simp
+        | cons f rest =>
+          have hf : f ∈ occ data pat s e al := by rw [hocc]; exact List.mem_cons_self
+          have hfm := (occ_mem_iff data pat s e al f).1 hf
+          have hstep := sel_step data pat 0 s e al hne (Nat.zero_le _) f rest hocc
+          rw [hocc] at hstep
+          simp only [List.head?_cons]
+          rw [hstep]
+          cases cnt with
+          | none =>
+            rw [splitLoop_none data pat e al hne hb.2 _ f f 1 hfm.2.1 (by omega)]
+            simp [piecesAt]
+          | some n =>
+            have hn : 0 < n := hcnt
+            rw [splitLoop_some data pat e al n hne hb.2 _ f f 1 hfm.2.1 (by omega)]
+            have : n = (n - 1) + 1 := by omega
+            simp only [piecesAt]
+            conv => rhs; rw [this, List.take_succ_cons]
+      cases count with
+      | none =>
+        have := key none trivial
+        simp only [Option.map_none] at this ⊢
+        simp only [countNat]
+        rw [← this]
+        simp
+        cases findMsb0 data pat s e al <;> rfl
+      | some k =>
+        have hk := hc k rfl
+        by_cases hk0 : k = 0
+        · subst hk0
+          simp [countNat, specSplit]
+        · have := key (some k.toNat) (by show 0 < k.toNat; omega)
+          simp only [countNat]
+          rw [← this]
+          have h1 : ¬ k < 0 := by omega
+          simp [h1, hk0]
+          cases findMsb0 data pat s e al <;> rfl
+
+
+/-! ### replace, whole -/
+
+theorem replaceCore_eq (data old new : Bits) (s e : Nat) (c : Nat) (al : Bool) (cnt : Option Nat)
+    (hne : old ≠ []) (he : e ≤ data.length)
+    (hcnt : (if c = 0 then selectNonOverlap old.length 0 (occ data old s e al)
+              else (selectNonOverlap old.length 0 (occ data old s e al)).take c)
+            = specReplaceSel data old s e al cnt) :
+    replaceCore data old new s e c al = specReplace data old new s e al cnt := by
+  unfold replaceCore specReplace
+  rw [findallMsb0_eq_occ data old s e al hne he, replaceSelLoop_init, hcnt]
+  cases specReplaceSel data old s e al cnt with
+  | nil => simp [spliceFrom]
+  | cons p ps =>
+    simp only []
+    rw [replaceAssemble_gen]
+
+theorem replace_main (data old new : Bits) (start stop : Option Int) (count : Option Int)
+    (ba : Option Bool) (optBA : Bool)
+    (hreg : replace_count0_unvalidated data.length old start stop count = false)
+    (hc : ∀ c, count = some c → 0 ≤ c) :
+    replace data old new start stop count ba optBA =
+      specGuard true data.length old start stop fun s e =>
+        specReplace data old new s e (specAligned ba optBA) (countNat count) := by
+  unfold replace specGuard
+  by_cases h0 : count = some 0
+  · subst h0
+    simp only [replace_count0_unvalidated, beq_self_eq_true, Bool.true_and, Bool.or_eq_false_iff] at hreg
+    obtain ⟨h1, h2⟩ := hreg
+    cases hw : specWindow data.length start stop with
+    | none => simp [hw] at h2
+    | some w =>
+      obtain ⟨s, e⟩ := w
+      simp [h1, countNat, specReplace, specReplaceSel, spliceFrom]
+  · rw [if_neg h0]
+    by_cases hp : old.length = 0
+    · have : old = [] := List.length_eq_zero_iff.1 hp
+      subst this; simp
+    · have hne : old ≠ [] := fun h => hp (by simp [h])
+      have hie : old.isEmpty = false := by cases old <;> simp_all
+      rw [if_neg hp]
+      simp only [hie, Bool.and_false, Bool.false_eq_true, if_false]
+      have hv := validate_slice_spec data.length start stop
+      cases hw : specWindow data.length start stop with
+      | none => rw [hw] at hv; rw [hv]
+      | some w =>
+        obtain ⟨s, e⟩ := w
+        rw [hw] at hv
+        have hb := validate_slice_bounds _ _ _ s e hv
+        rw [hv]
+        simp only []
+        rw [defaultBA_eq]
+        generalize specAligned ba optBA = al
+        congr 1
+        apply replaceCore_eq data old new s e _ al _ hne hb.2
+        cases count with
+        | none => simp [countNat, specReplaceSel]
+        | some k =>
+          have hk := hc k rfl
+          have hk0 : k ≠ 0 := fun h => h0 (by rw [h])
+          have : k.toNat ≠ 0 := by omega
+          simp [countNat, specReplaceSel, this]
+
+
+/-! ### cut -/
+
+theorem ceil_zero (b : Nat) (hb : 0 < b) : (0 + b - 1) / b = 0 := by
+  apply Nat.div_eq_of_lt; omega
+
+theorem ceil_small (x b : Nat) (h0 : 0 < x) (hx : x ≤ b) : (x + b - 1) / b = 1 := by
+  have : x + b - 1 = (x - 1) + b := by omega
+  rw [this, Nat.add_div_right _ (by omega), Nat.div_eq_of_lt (by omega)]
+
+theorem ceil_step (x b : Nat) (hb : 0 < b) (hx : b ≤ x) : (x + b - 1) / b = (x - b + b - 1) / b + 1 := by
+  have : x + b - 1 = (x - b + b - 1) + b := by omega
+  rw [this, Nat.add_div_right _ hb]
+
+theorem ceil_mul_ge (x b : Nat) (hb : 0 < b) : x ≤ ((x + b - 1) / b) * b := by
+  have h1 := Nat.div_add_mod (x + b - 1) b
+  have h2 := Nat.mod_lt (x + b - 1) hb
+  rw [Nat.mul_comm] at h1
+  omega
+
+/-- The chunks of the window `[start, e)`. -/
+def chunks (data : Bits) (b e start : Nat) : List Bits :=
+  (List.range ((e - start + b - 1) / b)).map fun i => slice data (start + i * b) (min (start + (i + 1) * b) e)
+
+theorem chunks_nil (data : Bits) (b e start : Nat) (hb : 0 < b) (h : e ≤ start) : chunks data b e start = [] := by
+  unfold chunks
+  have : e - start = 0 := by omega
+  rw [this, ceil_zero b hb]; rfl
+
+theorem chunks_cons (data : Bits) (b e start : Nat) (hb : 0 < b) (h : start < e) :
+    chunks data b e start = slice data start (min (start + b) e) :: chunks data b e (start + b) := by
+  unfold chunks
+  by_cases hx : e - start ≤ b
+  · rw [ceil_small _ b (by omega) hx]
+    have : e - (start + b) = 0 := by omega
+    rw [this, ceil_zero b hb]
+    simp
+  · rw [ceil_step _ b hb (by omega)]
+    have : e - start - b = e - (start + b) := by omega
+    rw [this, List.range_succ_eq_map, List.map_cons, List.map_map]
+    congr 1
+    · simp
+    · apply List.map_congr_left
+      intro i _
+      simp only [Function.comp]
+      have h1 : start + (i + 1) * b = start + b + i * b := by rw [Nat.add_mul]; omega
+      have h2 : start + (i + 1 + 1) * b = start + b + (i + 1) * b := by
+        rw [Nat.add_mul (i + 1) 1 b]; omega
+      rw [h1, h2]
+
+theorem cutLoop_stop (data : Bits) (b e n fuel start c : Nat) (h : n ≤ c) :
+    cutLoop data b e (some n) fuel start c = [] := by
+  cases fuel with
+  | zero => rfl
+  | succ k =>
+    simp only [cutLoop]
+    rw [if_neg (by simpa using h)]
+
+theorem chunk_len (data : Bits) (b e start : Nat) (he : e ≤ data.length) :
+    (slice data start (min (start + b) e)).length = min b (e - start) := by
+  rw [slice_length]; omega
+
+theorem cutLoop_none (data : Bits) (b e : Nat) (hb : 0 < b) (he : e ≤ data.length) :
+    ∀ fuel start c, e < fuel + start → cutLoop data b e none fuel start c = chunks data b e start := by
+  intro fuel
+  induction fuel with
+  | zero => intro start c h; rw [chunks_nil data b e start hb (by omega)]; rfl
+  | succ k ih =>
+    intro start c h
+    simp only [cutLoop, if_true]
+    rw [chunk_len data b e start he]
+    by_cases h1 : e ≤ start
+    · rw [if_pos (by omega), chunks_nil data b e start hb h1]
+    · rw [if_neg (by omega), chunks_cons data b e start hb (by omega)]
+      by_cases h2 : e - start < b
+      · rw [if_pos (by omega), chunks_nil data b e (start + b) hb (by omega)]
+      · rw [if_neg (by omega), ih (start + b) (c + 1) (by omega)]
+
+theorem cutLoop_some (data : Bits) (b e n : Nat) (hb : 0 < b) (he : e ≤ data.length) :
+    ∀ fuel start c, e < fuel + start →
+      cutLoop data b e (some n) fuel start c = (chunks data b e start).take (n - c) := by
+  intro fuel
+  induction fuel with
+  | zero => intro start c h; rw [chunks_nil data b e start hb (by omega), List.take_nil]; rfl
+  | succ k ih =>
+    intro start c h
+    by_cases hcn : c < n
+    · simp only [cutLoop]
+      rw [if_pos (by simpa using hcn), chunk_len data b e start he]
+      have hnc : n - c = (n - (c + 1)) + 1 := by omega
+      by_cases h1 : e ≤ start
+      · rw [if_pos (by omega), chunks_nil data b e start hb h1, List.take_nil]
+      · rw [if_neg (by omega), chunks_cons data b e start hb (by omega), hnc, List.take_succ_cons]
+        by_cases h2 : e - start < b
+        · rw [if_pos (by omega), chunks_nil data b e (start + b) hb (by omega), List.take_nil]
+        · rw [if_neg (by omega), ih (start + b) (c + 1) (by omega)]
+    · rw [cutLoop_stop data b e n _ start c (by omega)]
+      have : n - c = 0 := by omega
+      simp [this]
+
+theorem cut_main (data : Bits) (bits : Int) (start stop : Option Int) (count : Option Int)
+    (hb : 0 < bits) (hc : ∀ c, count = some c → 0 ≤ c) :
+    cut data bits start stop count =
+      specGuard false data.length [] start stop fun s e => specCut data bits.toNat s e (countNat count) := by
+  unfold cut specGuard
+  simp only [Bool.false_and, Bool.false_eq_true, if_false]
+  have hv := validate_slice_spec data.length start stop
+  cases hw : specWindow data.length start stop with
+  | none => rw [hw] at hv; rw [hv]
+  | some w =>
+    obtain ⟨s, e⟩ := w
+    rw [hw] at hv
+    have hbd := validate_slice_bounds _ _ _ s e hv
+    rw [hv]
+    simp only []
+    have hb' : 0 < bits.toNat := by omega
+    rw [if_neg (by omega : ¬ bits ≤ 0)]
+    cases count with
+    | none =>
+      simp only [Option.map_none, countNat, specCut]
+      rw [cutLoop_none data _ e hb' hbd.2 _ s 0 (by omega)]
+      simp [chunks]
+    | some k =>
+      have hk := hc k rfl
+      have h1 : ¬ k < 0 := by omega
+      simp only [Option.map_some, countNat, specCut]
+      rw [cutLoop_some data _ e _ hb' hbd.2 _ s 0 (by omega)]
+      simp [chunks, h1]
+
+theorem chunks_flatten (data : Bits) (b e s : Nat) :
+    ∀ k, ((List.range k).map fun i => slice data (s + i * b) (min (s + (i + 1) * b) e)).flatten
+      = slice data s (min (s + k * b) e) := by
+  intro k
+  induction k with
+  | zero => simp [slice]
+  | succ k ih =>
+    rw [List.range_succ, List.map_append, List.flatten_append, ih]
+    simp only [List.map_cons, List.map_nil, List.flatten_cons, List.flatten_nil, List.append_nil]
+    have h3 : s + k * b ≤ s + (k + 1) * b := by rw [Nat.add_mul]; omega
+    by_cases h : s + k * b ≤ e
+    · rw [Nat.min_eq_left h]
+      exact slice_append data _ _ _ (by omega) (by omega)
+    · have h1 : min (s + k * b) e = e := by omega
+      have h2 : min (s + (k + 1) * b) e = e := by omega
+      rw [h1, h2]
+      have : slice data (s + k * b) e = [] := by
+        unfold slice
+        have : e - (s + k * b) = 0 := by omega
+        rw [this]; rfl
+      rw [this, List.append_nil]
+
+
+theorem specCut_flatten_main (data : Bits) (bits s e : Nat) (hb : 0 < bits) (hse : s ≤ e) :
+    (specCut data bits s e none).flatten = slice data s e := by
+  simp only [specCut]
+  rw [chunks_flatten]
+  have := ceil_mul_ge (e - s) bits hb
+  rw [Nat.min_eq_right (by omega)]
+
+theorem specCut_lengths_main (data : Bits) (bits s e : Nat) (hb : 0 < bits) (he : e ≤ data.length)
+    (i : Nat) (hi : i < (specCut data bits s e none).length) :
+    (i + 1 < (specCut data bits s e none).length → ((specCut data bits s e none)[i]).length = bits) ∧
+    0 < ((specCut data bits s e none)[i]).length ∧ ((specCut data bits s e none)[i]).length ≤ bits := by
+  simp only [specCut, List.length_map, List.length_range] at hi ⊢
+  simp only [List.getElem_map, List.getElem_range, slice_length]
+  have h1 : (i + 1) * bits ≤ e - s + bits - 1 := (Nat.le_div_iff_mul_le hb).1 hi
+  rw [Nat.add_mul, Nat.one_mul] at h1 ⊢
+  refine ⟨?_, by omega, by omega⟩
+  intro h2
+  have h3 : (i + 1 + 1) * bits ≤ e - s + bits - 1 := (Nat.le_div_iff_mul_le hb).1 h2
+  rw [Nat.add_mul, Nat.add_mul, Nat.one_mul] at h3
+  omega
+
+/-! ### the pieces of `split` tile the window -/
+
+theorem piecesAt_flatten (data : Bits) (e : Nat) (ps : List Nat) :
+    ∀ fr, fr ≤ e → (∀ q ∈ ps, fr ≤ q ∧ q ≤ e) → ps.Pairwise (· ≤ ·) →
+      (piecesAt data e fr ps).flatten = slice data fr e := by
+  induction ps with
+  | nil => intro fr _ _ _; simp [piecesAt]
+  | cons p ps ih =>
+    intro fr hfe hmem hpw
+    have hp := hmem p List.mem_cons_self
+    have hpw' := List.pairwise_cons.1 hpw
+    simp only [piecesAt, List.flatten_cons]
+    rw [ih p hp.2 (fun q hq => ⟨hpw'.1 q hq, (hmem q (List.mem_cons_of_mem _ hq)).2⟩) hpw'.2]
+    exact slice_append data fr p e hp.1 hp.2
+
+theorem specSplit_flatten_main (data pat : Bits) (s e : Nat) (al : Bool) (hse : s ≤ e) :
+    (specSplit data pat s e al none).flatten = slice data s e := by
+  simp only [specSplit]
+  apply piecesAt_flatten data e _ s hse
+  · intro q hq
+    have h1 := (sel_sub pat.length _ 0 q hq).1
+    have h2 := (occ_mem_iff data pat s e al q).1 h1
+    omega
+  · exact (sel_nonoverlapping pat.length _ 0).imp (fun h => by omega)
+
 end BM.C07.Split
